@@ -461,5 +461,49 @@ pub proof fn lemma_c09_threshold_reached_within_credit(n: u32, k: u32)
 {
 }
 
+
+// ---------------------------------------------------------------------------------------------
+// the accessors of LinkFlowState<R> (link/state.rs): every other unit reads and writes the shared link state through them
+impl<R> LinkFlowState<R> {
+//@@ fn file=fe2o3-amqp/src/link/state.rs impl=`impl<R> LinkFlowState<R>` name=link_credit id=LinkFlowState::link_credit
+//@@ subst `self.lock.read()` => `(&self.lock)` rule=R4
+//@@ spec
+    ensures r == self.lock.link_credit,       // [C08.state.accessor-reads-its-field] [C09.state.accessor-reads-its-field] link-credit is link-credit: what the sender waits on and the receiver enforces is the number the flow handlers maintain
+//@@ end
+
+//@@ fn file=fe2o3-amqp/src/link/state.rs impl=`impl<R> LinkFlowState<R>` name=drain id=LinkFlowState::drain
+//@@ subst `self.lock.read()` => `(&self.lock)` rule=R4
+//@@ spec
+    ensures r == self.lock.drain,       // [C08.state.accessor-reads-its-field] [C09.state.accessor-reads-its-field]
+//@@ end
+
+//@@ fn file=fe2o3-amqp/src/link/state.rs impl=`impl<R> LinkFlowState<R>` name=initial_delivery_count id=LinkFlowState::initial_delivery_count
+//@@ subst `self.lock.read()` => `(&self.lock)` rule=R4
+//@@ spec
+    ensures r == self.lock.initial_delivery_count,       // [C08.state.accessor-reads-its-field] [C09.state.accessor-reads-its-field]
+//@@ end
+
+//@@ fn file=fe2o3-amqp/src/link/state.rs impl=`impl<R> LinkFlowState<R>` name=initial_delivery_count_mut
+//@@ selfmut
+//@@ generics <F: Fn(u32) -> u32>
+//@@ param f : F
+//@@ subst `self.lock.write()` => `(&mut self.lock)` rule=R4
+//@@ spec
+    requires forall|x: u32| f.requires((x,)),
+    ensures f.ensures((old(self).lock.initial_delivery_count,), final(self).lock.initial_delivery_count),
+        final(self).lock == (LinkFlowStateInner { initial_delivery_count: final(self).lock.initial_delivery_count, ..old(self).lock }),       // [C08.state.updater-writes-its-field] [C09.state.updater-writes-its-field] the update is applied to initial-delivery-count, computed from its old value, and to nothing else
+//@@ end
+
+//@@ fn file=fe2o3-amqp/src/link/state.rs impl=`impl<R> LinkFlowState<R>` name=delivery_count_mut
+//@@ selfmut
+//@@ generics <F: Fn(u32) -> u32>
+//@@ param f : F
+//@@ subst `self.lock.write()` => `(&mut self.lock)` rule=R4
+//@@ spec
+    requires forall|x: u32| f.requires((x,)),
+    ensures f.ensures((old(self).lock.delivery_count,), final(self).lock.delivery_count),
+        final(self).lock == (LinkFlowStateInner { delivery_count: final(self).lock.delivery_count, ..old(self).lock }),       // [C08.state.updater-writes-its-field] [C09.state.updater-writes-its-field] likewise for delivery-count (what the attach hand-over and the receiver's counting go through)
+//@@ end
+}
 } // verus!
 fn main() {}
